@@ -122,7 +122,10 @@ impl<T> SelfReferentialResourceStorage<T> {
 		T: Default,
 	{
 		let (new_resource_producer, new_resource_consumer) = RingBuffer::new(capacity);
-		let (unused_resource_producer, unused_resource_consumer) = RingBuffer::new(capacity);
+		// one more than the arena holds, for the same reason as in
+		// ResourceStorage::new: with only `capacity` slots the queue could be
+		// left full, which stops remove_unused from ever removing again
+		let (unused_resource_producer, unused_resource_consumer) = RingBuffer::new(capacity + 1);
 		let resources = Arena::new(capacity);
 		let arena_controller = resources.controller();
 		(
